@@ -69,6 +69,7 @@ impl Database {
                         .then_with(|| path_a.search_text.cmp(&path_b.search_text))
                         .then_with(|| path_a.key.cmp(&path_b.key))
                         .then_with(|| path_a.line.cmp(&path_b.line))
+                        .then_with(|| path_a.origin.cmp(&path_b.origin))
                 } else {
                     rank_b
                         .cmp(&rank_a)
@@ -77,6 +78,7 @@ impl Database {
                         .then_with(|| path_a.search_text.cmp(&path_b.search_text))
                         .then_with(|| path_a.key.cmp(&path_b.key))
                         .then_with(|| path_a.line.cmp(&path_b.line))
+                        .then_with(|| path_a.origin.cmp(&path_b.origin))
                 }
             })
             .map(|(path, _)| path)
